@@ -175,6 +175,13 @@ func NewFullRT(h host.Host, protocolPrefix protocol.ID, options ...Option) (*Ful
 		return nil, err
 	}
 
+	if dhtcfg.BootstrapPeers == nil {
+		// Without bootstrap peers the crawler has nowhere to start from; calling
+		// the unset function below would panic after the provider manager and
+		// the event bus subscription were created.
+		return nil, errors.New("fullrt: no bootstrap peers configured, pass kaddht.BootstrapPeers through DHTOption")
+	}
+
 	ms := dhtcfg.MsgSenderBuilder(h, amino.Protocols)
 	protoMessenger, err := dht_pb.NewProtocolMessenger(ms)
 	if err != nil {
